@@ -201,4 +201,68 @@ def run(ctx):
             r.fail(inst, func=hf.name, sig=f'helper loop trips {seen}', loc=hf.mod.src, msg=f'{hname[1:]} iterates {seen} times, expected its count argument (whole row / column)')
     r.require_min(6)
 
+    # ---------------- R04f accumulators are cleared
+    r = ctx.rule('R04f', 'a local scratch buffer that an accumulating kernel writes inside a loop is cleared (or freshly allocated) in the same iteration',
+                 'the kernels XOR into their destination: a scratch buffer reused across iterations without clearing carries the previous element into the next one')
+    from ..loops import loops_of as _lo, innermost as _inn
+    from ..cfg import dominators as _doms, dominates as _dom
+    ACC = {'@region_dot_product': 1, '@region_xor': 1, '@xor_bufs_and_store': 1}
+    CLR = {'@llvm.memset.p0i8.i64': 0, '@memset': 0, '@fast_memcpy': 0, '@llvm.memcpy.p0i8.p0i8.i64': 0, '@memcpy': 0}
+    nacc = 0
+    for fn in P.fns.values():
+        if not re.search(r'builtin/(rs_vand|xor_codes)/', fn.mod.src):
+            continue
+        LSf = None
+        for c in [i_ for i_ in fn.insts() if i_.op == 'call' and i_.callee in ACC]:
+            dest = strip_ptr_casts(fn, c.ops[ACC[c.callee]])
+            # local allocation (possibly lazily, through a merge with NULL)
+            roots, st_, seen_ = [], [dest], set()
+            while st_:
+                v = st_.pop()
+                if v in seen_:
+                    continue
+                seen_.add(v)
+                d = fn.defs.get(v)
+                if d is None:
+                    continue
+                if d.op == 'phi':
+                    st_ += [strip_ptr_casts(fn, x) for x, _ in d.incoming if x != 'null']
+                elif d.op == 'select':
+                    st_ += [strip_ptr_casts(fn, x) for x in d.ops[1:] if x != 'null']
+                elif d.op in ('bitcast', 'getelementptr'):
+                    st_.append(strip_ptr_casts(fn, d.ops[0]))
+                elif d.op == 'call' and d.callee in ('@malloc', '@calloc', '@get_aligned_buffer16', '@alloc_zeroed_buffer'):
+                    roots.append(d)
+            if not roots:
+                continue
+            LSf = LSf or _lo(P, fn)
+            L = _inn(LSf, c.bb)
+            if L is None:
+                continue
+            # only a buffer that is also consumed inside the loop (handed on as a source, stored somewhere) is a per-iteration
+            # temporary; a buffer that is nothing but the accumulation target in the loop may be a running sum read afterwards
+            aliases_ = {dest} | {i_.res for i_ in fn.insts() if i_.op in ('bitcast', 'getelementptr', 'phi', 'select') and i_.res and
+                                 any(o == dest for o in (i_.ops if i_.op != 'phi' else [v for v, _ in i_.incoming]))}
+            consumed = any((u.op == 'store' and u.ops[0] in aliases_ and u.bb in L.body) or
+                           (u.op == 'call' and u.bb in L.body and u is not c and u.callee not in CLR and
+                            any(o in aliases_ for ai_, o in enumerate(u.ops) if not (u.callee in ACC and ai_ == ACC[u.callee])))
+                           for u in fn.insts())
+            if not consumed:
+                continue
+            nacc += 1
+            fresh = all(rt.bb in L.body and not any(fn.defs.get(dest) is not None and fn.defs[dest].op in ('phi', 'select') for _ in [0]) for rt in roots)
+            idom = _doms(fn)
+            cleared = any(k_.op == 'call' and k_.callee in CLR and strip_ptr_casts(fn, k_.ops[0]) == dest and k_.bb in L.body and
+                          (k_.bb is c.bb and k_.idx < c.idx or (_dom(idom, k_.bb, c.bb) and k_.bb is not c.bb)) for k_ in fn.insts())
+            inst = f'{fn.name}: {c.callee[1:]} into a local buffer at line {c.line}'
+            if fresh or cleared:
+                r.ok(inst + (': allocated in this iteration' if fresh else ': cleared in this iteration'), func=fn.name, loc=c.loc)
+            else:
+                r.fail(inst, func=fn.name, sig='accumulation into a scratch buffer that is reused across iterations without clearing', loc=c.loc,
+                       msg=f'{c.callee[1:]} accumulates (XOR) into a local buffer that is allocated once and reused in every iteration of the loop without being '
+                           'cleared: from the second iteration on it still holds the previous result')
+    if not nacc:
+        r.ok('no accumulating kernel writes a reused local scratch buffer inside a loop', loc='src/builtin', trivial=True)
+    r.require_min(1)
+
     ctx.borrow('c18', ['R18b'], 'the GF tables must be complete before any other thread can build a generator from them')
